@@ -245,6 +245,9 @@ func (w *world) concretise(e *entryPoint, c caseSpec, in driverInput, rnd *rand.
 	}
 	if c.Op == "random" {
 		if e.instances == nil {
+			if e.gen != nil {
+				return e.gen("random", "any", w.level, rnd)
+			}
 			return nil
 		}
 		insts := e.instances(w.level)
